@@ -278,10 +278,16 @@ def run_python(codes, helpers):
     return res
 
 
-def run_c(codes, helpers, workdir):
-    """codes: list of expression texts (C profile).  One translation unit per batch; expressions that do not compile
-    are found by bisection (reported 'syntax')."""
+def run_c(codes, helpers, workdir, nproc=16):
+    """codes: list of expression texts (C profile).  One translation unit per batch (batches compiled in parallel);
+    expressions that do not compile are found by bisection (reported 'syntax'), a crashing executable 'crash'."""
+    from concurrent.futures import ThreadPoolExecutor
+    import threading
+    counter = [0]
+    lock = threading.Lock()
     def build(idx):
+        with lock:
+            counter[0] += 1; tag = counter[0]
         src = ['#include <math.h>', '#include <stdio.h>'] + helpers
         for k in idx:
             src.append('static double f%d(const double *x)\n{\n    double x0 = x[0], x1 = x[1], x2 = x[2], x3 = x[3], x4 = x[4], x5 = x[5];\n'
@@ -291,14 +297,19 @@ def run_c(codes, helpers, workdir):
         for k in idx:
             src.append('    printf("%d");' % k + ' for (int i = 0; i < %d; ++i) printf(" %%.17g", f%d(v[i])); printf("\\n");' % (len(VALUATIONS), k))
         src.append('    return 0;\n}')
-        cf = os.path.join(workdir, 'b.c'); ex = os.path.join(workdir, 'b.out')
+        cf = os.path.join(workdir, 'b%d.c' % tag); ex = os.path.join(workdir, 'b%d.out' % tag)
         open(cf, 'w').write('\n'.join(src) + '\n')
-        r = subprocess.run(['gcc', '-std=c99', '-O0', '-w', '-fno-builtin', cf, '-o', ex, '-lm'], capture_output=True, text=True)
-        if r.returncode != 0:
-            return 'compile'
-        r = subprocess.run([ex], capture_output=True, text=True)
-        if r.returncode != 0:
-            return 'crash'
+        try:
+            r = subprocess.run(['gcc', '-std=c99', '-O0', '-w', '-fno-builtin', cf, '-o', ex, '-lm'], capture_output=True, text=True)
+            if r.returncode != 0:
+                return 'compile'
+            r = subprocess.run([ex], capture_output=True, text=True)
+            if r.returncode != 0:
+                return 'crash'
+        finally:
+            for f in (cf, ex):
+                if os.path.exists(f):
+                    os.unlink(f)
         out = {}
         for l in r.stdout.split('\n'):
             t = l.split()
@@ -311,13 +322,18 @@ def run_c(codes, helpers, workdir):
             return
         out = build(idx)
         if not isinstance(out, str):
-            res.update(out); return
+            with lock:
+                res.update(out)
+            return
         if len(idx) == 1:
-            res[idx[0]] = ['syntax' if out == 'compile' else 'crash'] * len(VALUATIONS); return
+            with lock:
+                res[idx[0]] = ['syntax' if out == 'compile' else 'crash'] * len(VALUATIONS)
+            return
         go(idx[:len(idx) // 2]); go(idx[len(idx) // 2:])
-    B = 400
-    for i in range(0, len(codes), B):
-        go(list(range(i, min(i + B, len(codes)))))
+    B = 150
+    batches = [list(range(i, min(i + B, len(codes)))) for i in range(0, len(codes), B)]
+    with ThreadPoolExecutor(nproc) as ex:
+        list(ex.map(go, batches))
     return [res[k] for k in range(len(codes))]
 
 
@@ -331,7 +347,8 @@ def systematic():
         ks += [('NOT', l1, None), ('PLUS', l1, None), ('MINUS', l1, None), ('PLUS', ('PLUS', l1, l2), None), ('MINUS', ('cn', '-2'), None),
                ('MINUS', ('TIMES', l1, l2), None), ('MINUS', ('DIVIDE', l1, l2), None), ('PLUS', ('MINUS', l1, None), None),
                ('ROOT', l1, None), ('ROOT', ('DEGREE', l2, None), l1), ('LOG', ('LOGBASE', l2, None), l1), ('LOG', ('LOGBASE', ('cn', '10'), None), l1),
-               ('POWER', l1, ('cn', '0.5')), ('SIN', l1, None), ('TIMES', ('cn', '-2'), l1)]
+               ('POWER', l1, ('cn', '0.5')), ('POWER', l1, ('cn', '-0.5')), ('POWER', l1, ('cn', '2')), ('POWER', l1, ('MINUS', ('cn', '0.5'), None)),
+               ('ROOT', ('DEGREE', ('cn', '2'), None), l1), ('ROOT', ('DEGREE', ('cn', '-2'), None), l1), ('SIN', l1, None), ('TIMES', ('cn', '-2'), l1)]
         ks += [('PIECEWISE', ('PIECE', l1, l2), None), ('PIECEWISE', ('PIECE', l1, l2), ('OTHERWISE', l2, None))]
         return ks
     trees = []
@@ -365,3 +382,13 @@ def discrete(a):
     if a[0] in FUN1 or a[0] in ('POWER', 'ROOT', 'LOG', 'DIVIDE', 'REM', 'E', 'PI'):
         return False
     return discrete(a[1]) and discrete(a[2])
+
+
+def subtrees(a, acc):
+    """expression subtrees (qualifier and piece nodes are not expressions by themselves)"""
+    if a is None or a[0] in ('cn', 'ci'):
+        return acc
+    if a[0] not in ('DEGREE', 'LOGBASE', 'PIECE', 'OTHERWISE'):
+        acc.append(a)
+    subtrees(a[1], acc); subtrees(a[2], acc)
+    return acc
